@@ -1,6 +1,7 @@
 package c15
 
 import (
+	"os"
 	"bytes"
 	"context"
 	"fmt"
@@ -63,6 +64,9 @@ type world struct {
 	hist   []string
 	maxTxSize uint32
 	allNoVote    bool
+	forceChange  bool // the next forged block carries a parameter change of the application
+	forceCertify bool // before the next forge every validator certifies the whole uncertified range
+	aggAcross    int  // forged blocks with a non-empty aggregate commit while a parameter change was finalized but uncertified
 	lastAccepted *blockchain.Block // latest forged block that reached consensus (was published)
 	accepted     []*blockchain.Block
 	gStar     []byte // the validator owning the current wall-clock slot: the only one the real generator forges for
@@ -288,7 +292,11 @@ func (w *world) forge(t *rapid.T) bool {
 			return false
 		}
 	}
-	if sa := rapid.IntRange(0, 5).Draw(t, "scriptAsset"); sa == 0 {
+	sa := rapid.IntRange(0, 5).Draw(t, "scriptAsset")
+	if w.forceChange {
+		sa = 1
+	}
+	if sa == 0 {
 		w.n.ABI.InsertAssetsFn = func(h uint32) []*blockchain.BlockAsset {
 			return []*blockchain.BlockAsset{node.ScriptAsset(node.Script{EvBefore: 1, EvAfter: 1, Salt: h})}
 		}
@@ -310,15 +318,22 @@ func (w *world) forge(t *rapid.T) bool {
 		w.n.ABI.InsertAssetsFn = nil
 	}
 	// sometimes the validators certify the precommitted height first, so that a non-empty aggregate commit is available
-	if _, pc, cert := w.n.Heights(); pc > cert && rapid.IntRange(0, 2).Draw(t, "certify") == 0 {
+	if _, pc, cert := w.n.Heights(); pc > cert && (w.forceCertify || rapid.IntRange(0, 2).Draw(t, "certify") == 0) {
 		if p, err := w.n.CurrentParams(pc); err == nil {
+			// either the last precommitted height only, or the whole uncertified range as the engine does after a block
+			// (Certify(previous maxHeightPrecommitted, new one)): the range may span parameter changes, whose heights then
+			// get single commits of their own
+			from := pc - 1
+			if w.forceCertify || rapid.Bool().Draw(t, "certifyWholeRange") {
+				from = cert
+			}
 			for _, ix := range p.Idx {
 				k := node.Keys()[ix]
-				if err := w.n.Exec.Certify(pc-1, pc, k.Addr, k.BLSPriv); err != nil {
+				if err := w.n.Exec.Certify(from, pc, k.Addr, k.BLSPriv); err != nil {
 					w.fail("Certify: %v", err)
 				}
 			}
-			w.hist = append(w.hist, fmt.Sprintf("all validators certify height %d", pc))
+			w.hist = append(w.hist, fmt.Sprintf("all validators certify heights (%d, %d]", from, pc))
 		}
 	}
 	pooled := w.fillPool(t)
@@ -349,6 +364,12 @@ func (w *world) forge(t *rapid.T) bool {
 		return false
 	}
 	b := w.last
+	if _, pc, cert := w.n.Heights(); !b.Header.AggregateCommit.Empty() {
+		if nh, ok := w.n.NextParamHeight(cert + 1); ok && nh <= pc {
+			evid.R.Label("forged-aggregate-commit-before-pending-parameter-change", 1)
+			w.aggAcross++
+		}
+	}
 	w.hist = append(w.hist, fmt.Sprintf("forge h=%d mhg=%d mhp=%d txs=%d agg=%v by %x", b.Header.Height, b.Header.MaxHeightGenerated, b.Header.MaxHeightPrevoted, len(b.Transactions), !b.Header.AggregateCommit.Empty(), b.Header.GeneratorAddress[:2]))
 	if w.orderViolation != "" {
 		w.fail("%s", w.orderViolation)
@@ -455,9 +476,79 @@ func runScenario(t *rapid.T, w *world) (forges, restarts, lower int) {
 	return
 }
 
+// scenario 2: the forged block's aggregate commit when validator-set/threshold changes are finalized but not yet certified —
+// the generator's own parameter change goes in a forged block, the chain is extended without certifying until that block is
+// final, every validator certifies the whole uncertified range, and the generator forges again.
+func runCertScenario(t *rapid.T, w *world) (forges int) {
+	w.extend(t, rapid.IntRange(2, 8).Draw(t, "certPrefix"), false)
+	// (a forged block takes the current wall-clock slot, so nothing can follow it: the parameter changes come in harness blocks)
+	changes := rapid.IntRange(1, 2).Draw(t, "certChanges")
+	var changeAt uint32
+	for c := 0; c < changes; c++ {
+		tip := w.n.Tip().Header
+		cur, err := w.n.CurrentParams(tip.Height + 1)
+		if err != nil {
+			w.fail("params: %v", err)
+		}
+		// same validators in the same round-robin order (the generator under test keeps its wall-clock slot), new threshold
+		gens, err := w.n.Exec.GetGeneratorKeys(w.n.Store(), tip.Height+1)
+		if err != nil {
+			w.fail("generator list: %v", err)
+		}
+		weight := map[int]uint64{}
+		for i, ix := range cur.Idx {
+			weight[ix] = cur.Weights[i]
+		}
+		next := node.NextParams{Precommit: cur.Precommit}
+		for _, g := range gens {
+			k := node.KeyByAddr(g.Address())
+			next.Idx = append(next.Idx, k.Index)
+			next.Weights = append(next.Weights, weight[k.Index])
+		}
+		next.Cert = cur.Cert%uint64(len(cur.Idx)) + uint64(len(cur.Idx))/3 + 1
+		if next.Cert > uint64(len(cur.Idx)) {
+			next.Cert = uint64(len(cur.Idx))
+		}
+		slot := w.n.SlotOf(tip.Timestamp) + 1
+		if k, err := w.n.GeneratorAt(tip.Height+1, slot); err == nil && bytes.Equal(k.Addr, w.gStar) {
+			slot++
+		}
+		b, err := w.n.Apply(node.Spec{AbsSlot: slot, Script: node.Script{Salt: 7, Next: &next}})
+		if err != nil {
+			w.fail("harness block with a parameter change rejected: %v", err)
+		}
+		changeAt = b.Header.Height
+		w.hist = append(w.hist, fmt.Sprintf("extend h=%d: certificate threshold %d -> %d from the next height", changeAt, cur.Cert, next.Cert))
+		w.extend(t, rapid.IntRange(0, 3).Draw(t, "betweenChanges"), false)
+	}
+	beyond := uint32(rapid.IntRange(0, 2).Draw(t, "beyondChange"))
+	for j := 0; j < 16; j++ {
+		if _, pc, _ := w.n.Heights(); pc > changeAt+beyond {
+			break
+		}
+		w.extend(t, 1, false)
+	}
+	w.forceCertify = rapid.IntRange(0, 4).Draw(t, "certAll") != 0
+	if w.forge(t) {
+		forges++
+	}
+	w.forceCertify = false
+	return
+}
+
 func runHistory(t *rapid.T) {
 	w := newWorld(t)
 	defer w.close()
+	if rapid.IntRange(0, 3).Draw(t, "certScenario") == 0 {
+		forges := runCertScenario(t, w)
+		if os.Getenv("C15_DEBUG") != "" {
+			fmt.Println(strings.Join(w.hist, "\n"), "\n-----")
+		}
+		evid.R.Case(strings.Join(w.hist, "|"), w.aggAcross > 0, func() any {
+			return map[string]any{"kind": "history", "actions": w.hist, "forges": forges}
+		}, "history", "cert-scenario", fmt.Sprintf("aggregate-before-pending-change-%v", w.aggAcross > 0))
+		return
+	}
 	if rapid.Bool().Draw(t, "scenario") {
 		forges, restarts, lower := runScenario(t, w)
 		labels := []string{"history", "scenario"}
